@@ -688,7 +688,13 @@ where
         }
         VectorDiff::Truncate { length: new_length } => {
             // Keep values where their `unsorted_index` is lower than the `new_length`.
-            buffered_vector.retain(|(unsorted_index, _)| *unsorted_index < new_length);
+            // Note: not `Vector::retain`, which (imbl 5.0) keeps the wrong items
+            // for some vectors that span several chunks.
+            *buffered_vector = buffered_vector
+                .iter()
+                .filter(|(unsorted_index, _)| *unsorted_index < new_length)
+                .cloned()
+                .collect();
             result.push(VectorDiff::Truncate { length: new_length });
         }
         VectorDiff::Reset { values: new_values } => {
